@@ -84,6 +84,8 @@ class World:
             else:  # pragma: no cover
                 raise AssertionError("the failing statement did not fail")
             del xs
+        elif k == "dataof":
+            self.A[newa[0]] = self.T[ev["t"]].data
         elif k == "clear":
             self.T[ev["t"]].clear_graph()
         elif k == "backward":
